@@ -199,6 +199,13 @@ pub fn rand_op(rng: &mut Rng, thorough: bool) -> OpSpec {
 pub fn codec_out(rng: &mut Rng, thorough: bool) -> Case {
     let mut cfg = GenCfg::conformant(rng);
     cfg.handles = rng.urange(1, 3);
+    // the identifiers the library assigns are part of what is written: start the counters next
+    // to the boundaries of their encodings (variable byte integer widths, u16 wrap)
+    if rng.chance(1, 3) {
+        let sub = *rng.pick(&[1u32, 126, 127, 128, 16_382, 16_383, 16_384, 2_097_150, 2_097_151, 2_097_152, 268_435_440]);
+        let pid_ = *rng.pick(&[1u16, 255, 256, 65_530, 65_535]);
+        cfg.preset_ids = Some((pid_, sub));
+    }
     let mut g = Gen::new(cfg, rng);
     let mut connect = rand_connect(g.rng);
     let with_auth_rounds = connect.auth_method.is_some() && connect.auth_data.is_some() && g.rng.chance(1, 2);
